@@ -33,7 +33,7 @@ EVAL_SRC = ['1 + 2', '[1,\n2]\n3', '1 $ 2', 'a = 1\nb = 2\nc = = 3', '(1', '1 +'
             'round(1 / 0.0000000000000000000000000000000000000001 ** 99999999)', '0 ** 0', '(0 - 8) ** 0.5', '(0 - 2) ** 1.5 + 1', 'round(x9, 2)', 'round(float("inf"))', 'round(float("nan"), 2)', 'floor(float("-inf"))', 'int(float("nan"))', '10 ** 1000000000', 'len = 7; len']
 NAMES_SRC = ['price * qty + fee(region)', 'alpha + beta ? gamma', 'a\n(b,\nc', '"s" # x', '%a b% . c ( d']
 NAMES_MODES = ['full', 'abandon1', 'unstarted', 'deferred']
-OMITTED_SRC = ['x = 1', 'x', 'x += 1', 'len = 7; len', 'len("ab")', 'u = 3', 'u', 'f = v => v + 1', 'f(1)']
+OMITTED_SRC = ['x = 1', 'x', 'x += 1', 'len = 7; len', 'len("ab")', 'u = 3', 'u', 'f = v => v + 1', 'f(1)', '"a  b" | len', '"a b" | len']
 NAMES_KINDS = ['fresh', 'P', 'Q', 'none']
 BATTERY = [('parse', 'a\nb'), ('eval', '[1,\n2] + [3]', 'fresh', None), ('names', 'p + q\nr', 'full'),
            ('eval', 'x = 2; x * y', 'B', None), ('parse', '{"k": (1,\n2)}\nz')]
@@ -294,12 +294,27 @@ def run_history(res, hist, check_all=False):
     tpl = template()
     A = World(tpl, clone.pristine(tpl))
     B = World(tpl, None)
+    # the same history on a parser constructed WITH a parse cache: a caching SqParser is an SqParser
+    AC = None
+    if len(hist) <= 2:
+        pc = clone.pristine(tpl)
+        pc.parse_cache = {}
+        AC = World(tpl, pc)
     last_exc = False
     ms0 = _MS0[0]
     for i, act in enumerate(hist):
         ra = A.call(act)
         rb = B.call(act)
         res.count('calls')
+        if AC is not None:
+            rc = AC.call(act)
+            res.count('calls')
+            if rc != rb or AC.pers_state() != B.pers_state():
+                res.violation(f'result-with-parse-cache:{_sig(act)}<-{_sig(hist[i - 1]) if i else "start"}',
+                              'on a parser with a parse cache a call gives a different answer than on a fresh parser with equal arguments',
+                              {'history': [list(map(_j, a)) for a in hist[:i + 1]], 'expected': repr(rb)[:400], 'observed': repr(rc)[:400],
+                               'parse_cache': True})
+                return None, False
         last_exc = ra[0] == 'exc'
         if check_all or i == len(hist) - 1:
             if ra != rb:
